@@ -110,3 +110,65 @@ def returns_sr(n, which):
             return returns_sr(n["expr"], which)
         return False
     return n.get("k") == "Return" and n.get("value") is not None and is_sr(n["value"], which)
+
+
+def failure_branch(root, call, variant=("Option", "None")):
+    """How is the failing case (None / Err) of the value produced by `call` handled?  Supports
+       match CALL {Some(v) => .., None => BODY}    -> BODY
+       let Some(v) = CALL else { BODY };           -> BODY
+       if let Some(v) = CALL {..} else { BODY }    -> BODY (None if there is no else)
+       CALL?                                       -> "try"
+    Returns None if the value is used in some other way."""
+    for n, path in walk_with_path(root):
+        k = n.get("k")
+        if k == "Match" and peel(n["scrut"]) is call:
+            for a in n["arms"]:
+                for p in _alts(a["pat"]):
+                    if variant_of(p) == variant or (strip_ref(p).get("k") == "Wild" and a is n["arms"][-1]):
+                        return a["body"]
+            return None
+        if k == "Block":
+            for s in n["stmts"]:
+                if s["k"] == "Let" and s.get("init") is not None and peel(s["init"]) is call and s.get("else") is not None:
+                    return s["else"]
+        if k == "If" and peel(n["cond"]).get("k") == "LetCond" and peel(peel(n["cond"])["arg"]) is call:
+            return n.get("else")
+        if k == "Try" and peel(n["arg"]) is call:
+            return "try"
+    return None
+
+
+def branches(n):
+    """[(pattern or None for 'otherwise', body)] of a Match or of an `if let P = e {..} else {..}` (else may be absent)."""
+    n = peel(n)
+    if n.get("k") == "Match":
+        return peel(n["scrut"]), [(a["pat"] if strip_ref(a["pat"]).get("k") != "Wild" else None, a["body"]) for a in n["arms"]]
+    if n.get("k") == "If" and peel(n["cond"]).get("k") == "LetCond":
+        c = peel(n["cond"])
+        return peel(c["arg"]), [(c["pat"], n["then"]), (None, n.get("else"))]
+    return None, []
+
+
+def let_init(root, vid):
+    """The initialiser of the (unique) `let` that binds variable id `vid` directly, or None."""
+    found = None
+    for n in walk(root):
+        if n.get("k") == "Block":
+            for s in n["stmts"]:
+                if s["k"] == "Let" and strip_ref(s["pat"]).get("k") == "Bind" and strip_ref(s["pat"])["id"] == vid and s.get("init") is not None:
+                    if found is not None:
+                        return None
+                    found = s["init"]
+    return found
+
+
+def resolve(root, n, depth=3):
+    """Follow `let x = <expr>` for a plain variable use (single binding), a few steps."""
+    n = peel(n)
+    while depth > 0 and isinstance(n, dict) and n.get("k") == "Var":
+        init = let_init(root, n["id"])
+        if init is None:
+            break
+        n = peel(init)
+        depth -= 1
+    return n
